@@ -74,10 +74,10 @@ def load_and_run(text, tmp, fail_first=False):
     return prog
 
 
-def twin_failures(model, rec, text):
-    """The same model description applied to two tables by a caller of the programming interface: two Program objects
-    built from the very same argument objects (Argument instances, hence the same lists), each with its own working
-    directory; the first is run, then the second -- whose results must be those of *its* table."""
+def twin_programs(model):
+    """Two Program objects built through add_command from the very same argument objects (Argument instances, hence the
+    same lists), each with its own working directory and table; every cell of the second table is one more than in the
+    first.  -> (programs, scratch directories, the second model)"""
     import copy
 
     from mpilot.arguments import Argument
@@ -88,22 +88,29 @@ def twin_failures(model, rec, text):
     model2 = copy.deepcopy(model)
     for spec in model2["cols"].values():
         spec["data"] = [x + 1 for x in spec["data"]]
-    ref2 = M.reference_results(model2)
-    if any(isinstance(v, tuple) for v in ref2.values()):
-        rec.exclude("twin:second_table_leads_to_a_documented_error")
-        return []
     cmds = c12.model_commands(model)[2:]
     shared = [(c, {k: Argument(k, c12.api_value(v)) for k, v in c["args"]}) for c in cmds]
     tmps = [tempfile.mkdtemp(prefix="vcheck-c02-twin-") for _ in range(2)]
+    progs = []
+    for m, tmp in zip((model, model2), tmps):
+        M.write_table(m, os.path.join(tmp, "input.csv"))
+        prog = Program(libraries=EEMS_CSV_LIBRARIES, working_dir=tmp)
+        for c, args in shared:
+            prog.add_command(prog.find_command_class(c["cmd"]), c["name"], dict(args))
+        progs.append(prog)
+    return progs, tmps, model2
+
+
+def twin_failures(model, rec, text):
+    """The same model description applied to two tables by a caller of the programming interface: the first program is
+    run, then the second -- whose results must be those of *its* table."""
+    progs, tmps, model2 = twin_programs(model)
     fails = []
     try:
-        progs = []
-        for m, tmp in zip((model, model2), tmps):
-            M.write_table(m, os.path.join(tmp, "input.csv"))
-            prog = Program(libraries=EEMS_CSV_LIBRARIES, working_dir=tmp)
-            for c, args in shared:
-                prog.add_command(prog.find_command_class(c["cmd"]), c["name"], dict(args))
-            progs.append(prog)
+        ref2 = M.reference_results(model2)
+        if any(isinstance(v, tuple) for v in ref2.values()):
+            rec.exclude("twin:second_table_leads_to_a_documented_error")
+            return []
         try:
             progs[0].run()
             progs[1].run()
